@@ -255,6 +255,81 @@ def _array_rows(mv):
     return riv, cols, cond, parent
 
 
+TABLE_SEMANTIC = []
+
+
+def _table_semantic(rep, run: Run, D: Blocks, parts, node):
+    """MT-TABLE: a matching table of any construction is evaluated — the derived expressions of its parts, not the code — for
+    small diagrams, random coordinates and every perfect matching π the library may have accepted (row r ↔ column π(r); the
+    lookup by str(r) gives π(r), the lookup by a column c gives str(π⁻¹(c))).  The rows obtained must be exactly
+    {(r or −1, π(r) or −1, D[r, π(r)]) : not (r ≥ M and π(r) ≥ N)}, each once.  Returns ok / refuted / unmodelled."""
+    import itertools
+    import random
+    fi = run.fi
+    rng = random.Random(61)
+    n_tables = 0
+    for (m, n) in ((1, 1), (1, 2), (2, 1), (2, 2), (1, 3), (3, 1), (2, 3), (3, 2)):
+        perms = list(itertools.permutations(range(m + n)))
+        if len(perms) > 24:
+            perms = rng.sample(perms, 24)
+        pt = symeval.Point(rng, nrows=3, sizes={("rows", run.a): m, ("rows", run.b): n})
+        pt.eval_ranges = True
+        pt.blocks = {D.uid: D}
+        try:
+            cells = {(r, c): symeval.eval_block_entry(D, r, c, pt) for r in range(m + n) for c in range(m + n)}
+        except symeval.NotEvaluable as ex:
+            rep.unmodelled("MT-TABLE", fi, node, f"cannot evaluate the cost matrix ({ex})")
+            return "unmodelled"
+        for pi in perms:
+            inv = {c: r for r, c in enumerate(pi)}
+
+            def fwd(p_, e_, pi=pi):
+                k = int(round(symeval.ev(e_[2][-1], p_)))
+                if not 0 <= k < len(pi):
+                    raise symeval.NotEvaluable("matching looked up outside the rows of the matrix")
+                return float(pi[k])
+
+            def rev(p_, e_, inv=inv):
+                k = int(round(symeval.ev(e_[2][-1], p_)))
+                if k not in inv:
+                    raise symeval.NotEvaluable("matching looked up outside the columns of the matrix")
+                return float(inv[k])
+            pt.opq_fn = {"hk_partner": fwd, "hk_owner": rev}
+            pt.opq = {}
+            got = []
+            try:
+                for part in parts:
+                    (rsp, riv), (csp, civ) = part.axes
+                    for k in symeval.space_rows(rsp.key, pt):
+                        pt.ivs[riv] = k
+                        row = []
+                        for c_ in range(3):
+                            pt.ivs[civ] = c_
+                            row.append(symeval.ev(part.elem, pt))
+                        got.append((int(round(row[0])), int(round(row[1])), row[2]))
+            except symeval.NotEvaluable as ex:
+                rep.unmodelled("MT-TABLE", fi, node, f"cannot evaluate the table ({ex})")
+                return "unmodelled"
+            want = [(r if r < m else -1, c if c < n else -1, cells[(r, c)]) for r, c in enumerate(pi) if not (r >= m and c >= n)]
+            key_ = lambda t: (t[0], t[1], round(t[2], 9) if t[2] == t[2] and abs(t[2]) != float("inf") else str(t[2]))
+            if sorted(map(key_, got)) != sorted(map(key_, want)):
+                missing = sorted(set(map(key_, want)) - set(map(key_, got)))
+                extra = sorted(set(map(key_, got)) - set(map(key_, want)))
+                what = (f"the row {missing[0]} is missing" if missing else
+                        f"the row {extra[0]} is listed although the matching has no such pair" if extra else
+                        "a pair is listed more than once")
+                rep.refuted("MT-TABLE", fi, node,
+                            f"with {m} and {n} points and the accepted matching row→column {list(pi)}: {what} "
+                            f"(table {sorted(map(key_, got))[:6]}, expected {sorted(map(key_, want))[:6]})"[:600],
+                            construct=f"{fi.qualname}: matching table")
+                return "refuted"
+            n_tables += 1
+    rep.discharged("MT-TABLE", fi, node, f"the table's derived expressions evaluated for {n_tables} (sizes × coordinates × accepted "
+                                         f"perfect matchings): every point of either diagram appears in exactly one row, −1 marks the "
+                                         f"diagonal, the cost is the matrix entry of the pair, diagonal–diagonal pairs are left out")
+    return "ok"
+
+
 def _bottleneck_table(rep, run: Run, D: Blocks):
     """the matching rows are built as a whole table (arange / where / column_stack / mask / vstack of parts) rather than
     appended one by one: the same per-row obligations are read off the element expression of every part, and the
@@ -273,6 +348,23 @@ def _bottleneck_table(rep, run: Run, D: Blocks):
     conds = []
     raw_r = sym.IV(pos)
     raw_c = None
+    # a table whose parts are not 'all M+N rows, each with its partner looked up by str(row)' is decided by evaluating it
+    positional = True
+    for part in parts:
+        riv, cols, cond, parent = _array_rows(part)
+        if not (isinstance(parent, tuple) and parent and parent[0] == "range" and sym.equal(parent[1], sym.add(M, N))):
+            positional = False
+        if len({x for c in cols + [cond] for x in sym.walk(c) if x[0] == "opq" and x[1] in ("hk_partner", "hk_owner")}) != 1 \
+                or any(x[0] == "opq" and x[1] == "hk_owner" for c in cols + [cond] for x in sym.walk(c)):
+            positional = False
+    if not positional:
+        st = _table_semantic(rep, run, D, parts, node)
+        if st == "ok":
+            for r_ in ("MT-COST", "MT-MINUS1", "MT-MINUS1", "MT-DROP", "MT-COVER", "MT-PROV"):
+                rep.discharged(r_, fi, node, "decided for the whole table by MT-TABLE (evaluation of the derived table under every "
+                                             "accepted matching)", nontrivial=False)
+            TABLE_SEMANTIC.append(node)
+        return
     for k, part in enumerate(parts):
         riv, cols, cond, parent = _array_rows(part)
         cols = [sym.subst_ivar(c, riv, (pos, 0)) for c in cols]
